@@ -16,6 +16,8 @@ from contracts import common, insn, meta_c, compiler_c, c05, symbols_c
 from contracts.insn import *  # noqa
 from contracts.meta_c import unit_repeat, unit_insert_file, unit_zero_size  # noqa
 from contracts.compiler_c import unit_compile_block, unit_link_files  # noqa
+from contracts import deferred_c
+from contracts.deferred_c import unit_concat, unit_empty_add  # noqa
 from contracts.symbols_c import unit_compile_file  # noqa
 from pyvc import driver, frames
 
@@ -260,6 +262,10 @@ def units(tier):
     for n in (2, 3):
         us.append(("link[%d]" % n, "unit_link_files", dict(nfiles=n, kinds=("ready",) * n, settle_in=None)))
         us.append(("link[%d,lazy]" % n, "unit_link_files", dict(nfiles=n, kinds=("lazy",) * n, settle_in=0)))
+    # a structural unit's bytes are appended to / prepended by what surrounds it: every association of the concatenation keeps the order
+    for name, fn, kw in deferred_c.all_units():
+        if name.startswith("concat["):
+            us.append((name, fn, kw))
     return us
 
 
@@ -285,6 +291,8 @@ def _pairs(tree, pairs):
 
 def replay(o, tree):
     cfg = o.get("cfg") or {}
+    if cfg.get("kind") == "concat":
+        return deferred_c.replay_concat(cfg, tree)
     if "a-.end-inside-a-repeat-body" in o.get("label", ""):
         jobs, out = _pairs(tree, D40_PAIRS)
         return dict(jobs=jobs, expected="'.end' inside a repeat body discards the rest of the file", observed=out, reproduced=bool(out))
